@@ -572,3 +572,6 @@ def finish(stats, tier):
     if not stats["outcomes"].get("groups"):
         out.append("no run reported any group")
     return out
+
+
+RULE += ' Since rounds 10-11 also: classes of different length sharing their first 4096 bytes, in both arrival orders; one run over two devices pinned to different kinds (scratch fs + loop-mounted ext4), lengths around 4 KiB / 16 KiB, files of interest on either device.'
